@@ -599,7 +599,7 @@ type StreamFrame struct {
 // optional label header followed by frames. With keys, every frame must be an
 // encrypt frame; anything else is reported in err together with the frames
 // parsed so far.
-func ParseStream(raw []byte, keys [][]byte) (label string, frames []StreamFrame, err error) {
+func ParseStream(raw []byte, keys [][]byte, aadLabel ...string) (label string, frames []StreamFrame, err error) {
 	rest := raw
 	if len(rest) > 0 && rest[0] == THasLabel {
 		var r2 []byte
@@ -626,7 +626,12 @@ func ParseStream(raw []byte, keys [][]byte) (label string, frames []StreamFrame,
 				err = errors.New("stream: encrypted frame but no keys")
 				return
 			}
-			aad := append(append([]byte(nil), rest[:5]...), label...)
+			al := label
+			if label == "" && len(aadLabel) > 0 {
+				// the accepting side writes no header but still binds the stream's label
+				al = aadLabel[0]
+			}
+			aad := append(append([]byte(nil), rest[:5]...), al...)
 			res, e := Open(keys, rest[5:5+n], aad)
 			if e != nil {
 				err = fmt.Errorf("stream: %v", e)
